@@ -570,7 +570,7 @@ def gen_program(rng, name, mode='full', ngvecs=3, derived_params=True):
                 lo = rng.choice([C(0), C(rng.range(-2, 1)), V(rng.below(n))])
                 hi = add(lo, rng.choice([C(rng.range(0, 2)), ('%', add(V(rng.below(n)), C(9)), C(3))]))
                 st = rng.choice([C(1), C(1), C(2), add(('%', add(V(rng.below(n)), C(16)), C(2)), C(1))])
-                extra = {'kind': 'R', 'name': 'x' + suffix, 'param': True, 'lo': lo, 'hi': hi, 'step': st}
+                extra = {'kind': 'R', 'name': 'xyzw'[sum(1 for l in locs if l['name'][0] in 'xyzw')] + suffix, 'param': True, 'lo': lo, 'hi': hi, 'step': st}
                 locs.append(extra)
         else:
             nparams = rng.choice([1, 2, 2, 3]) if not shapes else rng.choice([1, 2, 3, 3, 4])
